@@ -15,6 +15,7 @@ import OcVerif.Driver.RtSock
 import OcVerif.Driver.RtConn
 import OcVerif.Driver.RtPrio
 import OcVerif.Driver.RtTrap
+import OcVerif.Driver.RtGrow
 import OcVerif.Driver.Co
 import OcVerif.Driver.Local
 import OcVerif.Driver.Beans
@@ -58,6 +59,7 @@ def dispatch (comp : String) : Option (String → String → Verdict) :=
   | "rtconn" => some Driver.RtConn.drive
   | "rtprio" => some Driver.RtPrio.drive
   | "rttrap" => some Driver.RtTrap.drive
+  | "rtgrow" => some Driver.RtGrow.drive
   | "co" => some Driver.Co.drive
   | "local" => some Driver.Local.drive
   | "beans" => some Driver.Beans.drive
